@@ -523,7 +523,7 @@ def run_check(ctx, prop):
             # the schedule that exhibited it is now an ordinary strict stage
             st2 = dict(n=4, voters=[1, 2, 3], learners=[], prevote=False, cq=False, maxsz=0, maxcsz=0,
                        storage="rocks-mem", profile="noconf", steps=1200)
-            conformance(ctx, zr, prop, [("rocks-snapshot-over-longer-log", st2, 3001)], stats, samples, par=1)
+            conformance(ctx, zr, prop, [("rocks-snapshot-over-longer-log", st2, 3006)], stats, samples, par=1)
         if prop in ("C01", "C03"):
             # grow from one voter + old snapshot + restart (scenarioGrowOne).  The group is a single-voter
             # group for a while, so the one invariant of the open finding raft-single-voter-commit-before-
@@ -536,9 +536,9 @@ def run_check(ctx, prop):
             conformance(ctx, zr, prop, g, stats, samples, par=2 if quick else 6)
         before = stats["rejected"]
         if prop == "C03":
-            iso3 = dict(n=4, voters=[1, 2, 3], learners=[4], prevote=False, cq=False, maxsz=0, maxcsz=1,
+            iso3 = dict(n=4, voters=[1, 2, 3], learners=[4], prevote=False, cq=True, maxsz=0, maxcsz=1,
                         storage="memory", profile="mixed", steps=600, noavoid=True)
-            conformance(ctx, zr, prop, [("restarted-learner-isolate", iso3, 8007)], stats, samples, par=1, expect_sig=True)
+            conformance(ctx, zr, prop, [("restarted-learner-isolate", iso3, 8025)], stats, samples, par=1, expect_sig=True)
         stats["isolate_rejected"] += stats["rejected"] - before
 
     for _ in V.parallel(lambda f: f(), [do_model, do_traces], n=2):
